@@ -307,11 +307,15 @@ Proof.
   eapply keepS_trans; [apply Hc | apply IHr].
 Qed.
 
+Lemma keepS_put_pgs T k a f : keepS T f (put_pgs k a f).
+Proof. unfold put_pgs. destruct (apgs a); [apply keepS_refl | apply keepS_w_pgs]. Qed.
+
 Lemma keepS_save_copy T t : forall p f, keepS T f (save_copy p t f).
 Proof.
   induction t as [k a l IH] using tree_ind'. intros p f. rewrite save_copy_eq.
   apply keepS_trans with (f2 := w_entity k (with_pgs a []) f); [apply keepS_w_entity|].
   apply keepS_trans with (f2 := w_link p k (w_entity k (with_pgs a []) f)); [apply keepS_w_link|].
+  eapply keepS_trans; [|apply keepS_put_pgs].
   eapply keepS_trans; [|unfold put_all; apply keepS_fold; intros; apply keepS_w_pg_put].
   generalize (w_link p k (w_entity k (with_pgs a []) f)) as g. unfold copy_kids.
   induction IH as [|c r Hc Hr IHr]; intros g; simpl; [apply keepS_refl|].
